@@ -6,7 +6,7 @@ from pysym.harness import run_cases
 LEVEL = 'exploration'
 DEDUCTIVE = [('contracts.stereo', ('involution', 'translate_tetrahedron_sign/tetrahedron', 'CANARY'))]   # sign translation kernel (shared with C12)
 FINISH = dict(rule='deductive: one obligation per path / table key; B: see run.bound entries of checks/b02.py',
-              explanation='T: writer/reader tables mutually inverse, closure numbers 1..99, element symbols; P: sign translation kernel (shared with C12); B: write->read atom by atom under the written order for all 32 option subsets, injectivity',
+              explanation='F: no memoised value read by this property\'s observables survives an edit it depends on (one obligation per covered mutator x cached key); T: writer/reader tables mutually inverse, closure numbers 1..99, element symbols; P: sign translation kernel (shared with C12); B: write->read atom by atom under the written order for all 32 option subsets, injectivity',
               trusted_base=['CPython', 'z3', 'pysym', 'oracles/o01_stereo.py', 'RDKit (secondary)'])
 replay = make_replay('C02')
 
